@@ -1301,7 +1301,7 @@ func checkC12(c *ctx) {
 		wCompare(c, d, impl, ins)
 		return
 	}
-	n := 260
+	n := 700
 	if c.thorough() {
 		n = 6000
 	}
